@@ -168,7 +168,7 @@ def run(ctx):
         (info, c1), (_, c2) = f1.result(), f2.result()
     spaces = {"n=1": c1, "n=2": c2}
     if ctx.thorough:
-        sh = ctx.rng.sample(range(40), 3)
+        sh = ctx.rng.sample(range(40), 2)
         _, c3 = sc.generate(ctx, POOL, 3, True, False, nshards=40, shards=sh)
         spaces[f"n=3 shards {sh} of 40"] = c3
         todo = c1 + c2 + c3
